@@ -243,6 +243,8 @@ func checkOther(t *testing.T, bind *Binding, job *Job, res *Result, acc *statAcc
 	switch job.Property {
 	case "C04":
 		regsimBatch(job, int(param(job, "regsimTrees", 30)), acc, res)
+	case "C12":
+		sorterBatch(job, int(param(job, "sorterCases", 400)), acc, res)
 	case "C20":
 		if param(job, "linsim", 0) != 0 {
 			if bind.Lin == nil {
@@ -260,6 +262,8 @@ func replayOther(t *testing.T, bind *Binding, c *Case, job *Job) []model.Violati
 	switch c.Engine {
 	case "regsim":
 		return replayRegsim(c)
+	case "sorter":
+		return replaySorter(c)
 	case "linsim":
 		if bind.Lin == nil {
 			return nil
